@@ -70,6 +70,7 @@ def run(ctx):
             ctx.ob("M-PARSE=M-FOLD", "%s operands" % fld, pn == fn,
                    "enum parser builds %s ; fold builds %s (0=subject,1=predicate)" % (tree_s(pn), tree_s(fn)))
             ctx.sample({"rule": "M-PARSE=M-FOLD", "field": fld, "parser": tree_s(pn), "fold": tree_s(fn)})
+    maps.rule_K_COPULAS(ctx)
     # sentence-level fold: stamp and punctuation through the enum parser's side doors, truth/budget via try_from_floats
     ctx.rule("M-FOLD-DOORS", "fold of Sentence reaches stamp and punctuation through NarseseFormat::parse::<Stamp|Punctuation> and "
              "truth/budget through try_from_floats (so both pipelines share one keyword->value map for these items)")
